@@ -17,6 +17,7 @@ CONTROLS = {
                ("BoolOp.mc6.cfg", {"Bug": '"pop_before_lock"'}, "ContractHolds", "thorough")],
     "CancelOnShutdown": [("CancelOnShutdown.mc.cfg", {"Bug": '"no_track"'}, "ContractHolds"),
                          ("CancelOnShutdown.mc.cfg", {"Bug": '"skip_one"'}, "ContractHolds"),
+                         ("CancelOnShutdown.mc.cfg", {"Bug": '"snapshot_before_gate"'}, "ContractHolds"),
                          ("CancelOnShutdown.mc.cfg", {"AsShipped_D2": "TRUE"}, "NoABBA")],
     "FutureImpl": [("FutureImpl.mc.cfg", {"Bug": '"append_when_done"'}, "NoCallbackLeft"),
                    ("FutureImpl.mc.cfg", {"Bug": '"keep_callbacks"'}, "NoCallbackLeft"),
@@ -44,6 +45,8 @@ CONTROLS = {
     "Timeout": [("Timeout.mc.cfg", {"Bug": '"deadline_first"'}, "ContractHolds"),
                 ("Timeout.mc.cfg", {"Bug": '"drop_pending"'}, "NoJobLost"),
                 ("Timeout.mc4.cfg", {"Bug": '"early"'}, "ContractHolds"),
+                ("Timeout.mc5.cfg", {"Bug": '"stale_now"'}, "ContractHolds"),
+                ("Timeout.mc.cfg", {"Bug": '"wake_only_if_empty"'}, "ContractHolds"),
                 ("Timeout.mc.cfg", {"Bug": '"no_set_on_submit"'}, "NoTimerlessSleepWithWork")],
     "WorkerLoop": [("WorkerLoop.mc.cfg", {"Bug": '"clear_before_wait"'}, "ThreadExits"),
                    ("WorkerLoop.mc.cfg", {"Bug": '"no_set_on_shutdown"'}, "ThreadExits"),
